@@ -52,7 +52,13 @@ Mutating(ev) ==
              [] ev.op = "reset_id" -> [st |-> ResetId(s, ev.tid), ret |-> TRUE]
              [] ev.op = "advance" -> [st |-> Advance(s, ev.ms), ret |-> TRUE]
       o == Obs(m.st.id, ev.proj, m.st.now)
-      sizeOk == ev.size = Size(o) /\ ev.is_empty = (Size(o) = 0)
+      \* size(), is_empty(), the public iterator nodes() and to_bootstrap() agree with the buckets: the iterator yields every
+      \* member exactly once (whatever buckets emptied out in between), in bucket order
+      members == {ev.proj[i][2] : i \in 1..Len(ev.proj)}
+      sizeOk == /\ ev.size = Size(o) /\ ev.is_empty = (Size(o) = 0)
+                /\ Len(ev.iter) = Size(o) /\ {ev.iter[i] : i \in 1..Len(ev.iter)} = members
+                /\ ev.iter = [i \in 1..Len(ev.proj) |-> ev.proj[i][2]]
+                /\ ev.to_bootstrap = Cardinality({i \in 1..Len(ev.proj) : ev.proj[i][3] <= StaleC})
       failed == Structure(o)
                 \cup (IF sizeOk THEN {} ELSE {"C12_SizeAgrees"})
                 \cup (IF ev.op = "add" /\ ~C12_EvictOnlyStaleHead(s, Ent(ev.n, s.now), o) THEN {"C12_EvictOnlyStaleHead"} ELSE {})
@@ -99,6 +105,8 @@ Op == /\ Rec[l].e = "op" /\ mode = "ok"
          CASE ev.op \in {"add", "remove", "reset_id", "advance"} -> Mutating(ev)
            [] ev.op = "closest" -> Closest(ev)
            [] ev.op = "acc" -> Acc(ev)
+           \* the library panicked inside one of the operations above (a panic is data)
+           [] ev.op = "panic" -> Report({"C11_NoPanic", "C12_NoPanic"}, [op |-> "panic"]) /\ mode' = "skip" /\ UNCHANGED s
       /\ l' = l + 1 /\ UNCHANGED <<U, beh>>
 
 TraceNext == l <= Len(Rec) /\ (Reset \/ Skip \/ Op)
